@@ -2366,6 +2366,9 @@ class CiscoConfParse(object):
         # Convert an None config into an empty list
         if config is None:
             config = []
+        elif isinstance(config, pathlib.Path):
+            # a Path has no len(); it is read like the same path given as a string
+            config = str(config)
 
         if len(config) > 0:
             try:
